@@ -34,7 +34,7 @@ def main():
         claim = None
         for node in ast.parse(src).body:
             if isinstance(node, ast.Assign) and getattr(node.targets[0], 'id', '') == 'CLAIM':
-                claim = ast.literal_eval(node.value)
+                claim = {k.arg: ast.literal_eval(k.value) for k in node.value.keywords}
         if claim is None:
             na.append(dict(property_id=pid, reason=NOT_YET))
             continue
